@@ -148,8 +148,7 @@ class Layer:
 _LAYERS: list = []
 
 
-def _worker(task):
-    li, b = task
+def _do_block(li, b):
     layer = _LAYERS[li]
     acc = Acc(layer.name, b)
     try:
@@ -157,6 +156,46 @@ def _worker(task):
     except BaseException:
         return dict(block=b, harness_error=traceback.format_exc())
     return acc.pack()
+
+
+def run_isolated(func, *args):
+    """Run func(*args) in a forked child and return its (picklable) result.  COMA code never executes in the calling process,
+    so every block / pre-scan starts from the same pristine post-import state and a replay in a fresh interpreter sees the
+    same state as the explorer did (module-level state of COMA cannot leak from one block into the next)."""
+    import pickle
+    r, w = os.pipe()
+    pid = os.fork()
+    if pid == 0:
+        code = 0
+        try:
+            os.close(r)
+            try:
+                data = pickle.dumps(('ok', func(*args)), protocol=4)
+            except BaseException:
+                data = pickle.dumps(('err', traceback.format_exc()), protocol=4)
+            with os.fdopen(w, 'wb') as f:
+                f.write(data)
+        except BaseException:
+            code = 1
+        finally:
+            if _SCRATCH is not None and _SCRATCH[0] == os.getpid():
+                shutil.rmtree(_SCRATCH[1], ignore_errors=True)
+            os._exit(code)
+    os.close(w)
+    with os.fdopen(r, 'rb') as f:
+        data = f.read()
+    os.waitpid(pid, 0)
+    if not data:
+        return ('err', 'isolated child died without a result')
+    return pickle.loads(data)
+
+
+def _worker(task):
+    li, b = task
+    st, res = run_isolated(_do_block, li, b)
+    if st != 'ok':
+        return dict(block=b, harness_error=res)
+    return res
 
 
 def run_layer(li: int, layer: Layer, deadline: float | None):
